@@ -3,6 +3,7 @@
  */
 
 #include <assert.h>
+#include <errno.h>
 #define should_not_reach_here() assert(0)
 
 #include "myth_config.h"
@@ -1830,6 +1831,11 @@ int __wrap(nanosleep)(const struct timespec *req, struct timespec *rem) {
   (void)_;
   if (myth_should_wrap_pthread()) {
     ret = myth_nanosleep_body(req, rem);
+    /* the body returns an error number; nanosleep(2) returns -1 and sets errno */
+    if (ret != 0) {
+      errno = ret;
+      ret = -1;
+    }
   } else {
     ret = real_nanosleep(req, rem);
   }
